@@ -693,6 +693,10 @@ def rec_jobs(tier, outdir, jid0):
         clens = [0, 1, 13] if tier == "quick" else [0, 1, 13, 16, 47]
         if cfg["suite"].startswith("3des"):
             clens = [0, 5] if tier == "quick" else [0, 1, 5]
+        # ... and the content length whose only short padding is the empty one (padding-length byte 0)
+        cz = (-((0 if cfg["etm"] else D) + 1)) % block
+        if cz not in clens:
+            clens = clens + [cz]
         for clen in clens:
             n0 = clen + (0 if cfg["etm"] else D)
             r = (-(n0 + 1)) % block
